@@ -706,31 +706,36 @@ func (c *Ctx) appendAlways(rule string, fi *FuncInfo, fields []string, clause st
 // contraction of the reference look identical and empties the reference-only terms.
 func (c *Ctx) breakIdentical(rule string, funcs []*FuncInfo, clause string) int {
 	n := 0
-	for _, fi := range funcs {
-		if fi == nil || fi.Decl.Body == nil {
-			continue
+	seen := map[*FuncInfo]bool{}
+	var check func(fi *FuncInfo, ident types.Object, depth int)
+	check = func(fi *FuncInfo, ident types.Object, depth int) {
+		if fi == nil || fi.Decl.Body == nil || seen[fi] || depth > 3 {
+			return
 		}
+		seen[fi] = true
 		info := fi.Pkg.TypesInfo
-		// the identical-only parameter: the second bool parameter
-		var ident types.Object
-		nb := 0
-		for _, f := range fi.Decl.Type.Params.List {
-			for _, nm := range f.Names {
-				if o := info.Defs[nm]; o != nil {
-					if b, ok := o.Type().Underlying().(*types.Basic); ok && b.Kind() == types.Bool {
-						nb++
-						if nb == 2 {
-							ident = o
+		walkStack(fi.Decl.Body, func(nd ast.Node, stack []ast.Node) bool {
+			// helpers that receive the identical-only flag carry part of the loops
+			if call, isCall := nd.(*ast.CallExpr); isCall {
+				if h := calleeOf(info, call); h != nil && inRepo(h) && h.Pkg() == fi.Obj.Pkg() {
+					if hfi := c.FuncOfObj(h); hfi != nil && hfi != fi {
+						idx := 0
+						var hp types.Object
+						for _, f := range hfi.Decl.Type.Params.List {
+							for _, nm := range f.Names {
+								if idx < len(call.Args) && identObj(info, call.Args[idx]) == ident {
+									hp = hfi.Pkg.TypesInfo.Defs[nm]
+								}
+								idx++
+							}
+						}
+						if hp != nil {
+							check(hfi, hp, depth+1)
 						}
 					}
 				}
+				return true
 			}
-		}
-		if ident == nil {
-			c.Undecided(rule, fi.Name()+"/param", fi.Decl.Pos(), "no second boolean parameter (identical-only mode) found")
-			continue
-		}
-		walkStack(fi.Decl.Body, func(nd ast.Node, stack []ast.Node) bool {
 			br, ok := nd.(*ast.BranchStmt)
 			if !ok || br.Tok != token.BREAK || br.Label != nil {
 				return true
@@ -764,6 +769,32 @@ func (c *Ctx) breakIdentical(rule string, funcs []*FuncInfo, clause string) int 
 				fmt.Sprintf("this `break` leaves a loop over the branches of %s without being under `%s`: in full mode the branches after that point are never looked up, so the counts and the weighted terms miss them (a contraction of the reference then compares as identical)", fi.Obj.Name(), ident.Name())).Clause = clause
 			return true
 		})
+	}
+	for _, fi := range funcs {
+		if fi == nil || fi.Decl.Body == nil {
+			continue
+		}
+		info := fi.Pkg.TypesInfo
+		// the identical-only parameter: the second bool parameter
+		var ident types.Object
+		nb := 0
+		for _, f := range fi.Decl.Type.Params.List {
+			for _, nm := range f.Names {
+				if o := info.Defs[nm]; o != nil {
+					if b, ok := o.Type().Underlying().(*types.Basic); ok && b.Kind() == types.Bool {
+						nb++
+						if nb == 2 {
+							ident = o
+						}
+					}
+				}
+			}
+		}
+		if ident == nil {
+			c.Undecided(rule, fi.Name()+"/param", fi.Decl.Pos(), "no second boolean parameter (identical-only mode) found")
+			continue
+		}
+		check(fi, ident, 0)
 	}
 	return n
 }
